@@ -7,6 +7,7 @@ import (
 	"bytes"
 	"fmt"
 	"io/ioutil"
+	"math/big"
 	"time"
 
 	"github.com/gogo/protobuf/proto"
@@ -233,6 +234,185 @@ func diffBlock(a, b *types.Block) string {
 	return ""
 }
 
+// partSizeClass names the size class of a part for signatures.
+func partSizeClass(p *types.Part) string {
+	if len(p.Bytes) == types.BlockPartSizeBytes {
+		return "bytes=exactly-the-part-size"
+	}
+	return ""
+}
+
+// reassemble sends every part of sender over the wire (ToProto -> bytes -> PartFromProto) into a receiving set
+// built from the header, in every arrival order, each part offered twice, and requires the exact bytes and block.
+func reassemble(name string, want common.Hash, bz []byte, sender *types.PartSet) (out []obs) {
+	n := int(sender.Total())
+	for _, perm := range permutations(n) {
+		rcv := types.NewPartSetFromHeader(sender.Header())
+		for _, i := range perm {
+			w, err := wirePart(sender.GetPart(i))
+			if err != nil {
+				return append(out, obs{rtSig("part-proto", partSizeClass(sender.GetPart(i)), "decode-error"), fmt.Sprintf("%s: part %d of %d (%d bytes): %v", name, i, n, len(sender.GetPart(i).Bytes), err)})
+			}
+			if d := diffPart(sender.GetPart(i), w); d != "" {
+				return append(out, obs{rtSig("part-proto", d, "field-changed"), fmt.Sprintf("%s: part %d of %d: %s differs after the wire", name, i, n, d)})
+			}
+			if ok, err := rcv.AddPart(w); !ok || err != nil {
+				return append(out, obs{rtSig("block-parts", "", "genuine-part-rejected"), fmt.Sprintf("%s: part %d of %d in order %v: (%v, %v)", name, i, n, perm, ok, err)})
+			}
+			if ok, _ := rcv.AddPart(w); ok {
+				return append(out, obs{rtSig("block-parts", "", "duplicate-accepted"), fmt.Sprintf("%s: part %d of %d added twice", name, i, n)})
+			}
+		}
+		if !rcv.IsComplete() {
+			return append(out, obs{rtSig("block-parts", "", "not-complete"), fmt.Sprintf("%s: all %d parts added in order %v but the set is not complete", name, n, perm)})
+		}
+		got, err := ioutil.ReadAll(rcv.GetReader())
+		if err != nil || !bytes.Equal(got, bz) {
+			return append(out, obs{rtSig("block-parts", "", "bytes-differ"), fmt.Sprintf("%s: reassembled %d bytes (err %v) differ from the %d original bytes, order %v", name, len(got), err, len(bz), perm)})
+		}
+		dec, err := decodeBlock(got)
+		if err != nil {
+			return append(out, obs{rtSig("block-parts", "", "decode-error"), fmt.Sprintf("%s: %v", name, err)})
+		}
+		if dec.Hash() != want {
+			return append(out, obs{rtSig("block-parts", "hash", "field-changed"), name})
+		}
+	}
+	return
+}
+
+// ---------------------------------------------------------------------------------------------
+// Blocks whose serialized length sits on the boundaries of the PRODUCTION part size (65536): the sender cuts
+// every part except the last to exactly that size, so these are the blocks whose parts have the largest legal
+// size. They go through the wire form of every part + reassembly and through rawdb at types.BlockPartSizeBytes.
+
+var sizeTargets = []int{65535, 65536, 65537, 131071, 131072, 131073}
+
+type sizedBlock struct {
+	want  int
+	block *types.Block
+	bz    []byte
+}
+
+var (
+	sizedOnce   bool
+	sizedBlocks []*sizedBlock
+)
+
+func buildSizedBlocks() []*sizedBlock {
+	if sizedOnce {
+		return sizedBlocks
+	}
+	sizedOnce = true
+	key := mustKey(keyHex[0])
+	to := common.HexToAddress("0x00000000000000000000000000000000000000c2")
+	commit := makeCommit(state1.LastValidators, 1, 0, id1, []string{"commit", "commit", "commit", "commit"})
+	prop := state1.Validators.GetProposer().Address
+	mk := func(p1, p2 int) (*types.Block, []byte) {
+		var txs []*types.Transaction
+		for k, p := range []int{p1, p2} {
+			pl := make([]byte, p)
+			for i := range pl {
+				pl[i] = byte(i*7 + k)
+			}
+			tx, err := types.SignTx(types.HomesteadSigner{}, types.NewTransaction(uint64(k), to, big.NewInt(1), 21000, big.NewInt(1), pl), key)
+			if err != nil {
+				panic(err)
+			}
+			txs = append(txs, tx)
+		}
+		blk := proposerBlock(2, state1, prop, commit, txs, nil)
+		bz, err := encodeBlock(blk)
+		if err != nil {
+			panic(err)
+		}
+		return blk, bz
+	}
+	for _, L := range sizeTargets {
+		sb := &sizedBlock{want: L}
+	search:
+		for p2 := 0; p2 < 64; p2++ {
+			p1 := L - 1500
+			for it := 0; it < 12 && p1 >= 0; it++ {
+				blk, bz := mk(p1, p2)
+				if len(bz) == L {
+					sb.block, sb.bz = blk, bz
+					break search
+				}
+				p1 += L - len(bz)
+			}
+		}
+		sizedBlocks = append(sizedBlocks, sb)
+	}
+	return sizedBlocks
+}
+
+func sizedItems() []rtItem {
+	var items []rtItem
+	for _, sb := range buildSizedBlocks() {
+		sb := sb
+		grp := fmt.Sprintf("size=%d", sb.want)
+		items = append(items, rtItem{group: grp, name: fmt.Sprintf("block-parts-at-production-part-size:%d", sb.want), run: func() (out []obs) {
+			if sb.block == nil {
+				return nil // vacuity guard in runRoundTrips
+			}
+			sender := sb.block.MakePartSet(types.BlockPartSizeBytes)
+			n := int(sender.Total())
+			if wantN := (sb.want + types.BlockPartSizeBytes - 1) / types.BlockPartSizeBytes; n != wantN || !sender.IsComplete() {
+				return []obs{{rtSig("block-parts", "", "sender-set-wrong"), fmt.Sprintf("%d-byte block: MakePartSet(%d) has %d parts, want %d", sb.want, types.BlockPartSizeBytes, n, wantN)}}
+			}
+			for i := 0; i < n-1; i++ {
+				if len(sender.GetPart(i).Bytes) != types.BlockPartSizeBytes {
+					return []obs{{rtSig("block-parts", "", "sender-set-wrong"), fmt.Sprintf("%d-byte block: part %d has %d bytes", sb.want, i, len(sender.GetPart(i).Bytes))}}
+				}
+			}
+			if dec, err := decodeBlock(sb.bz); err != nil || dec.Hash() != sb.block.Hash() {
+				return []obs{{rtSig("block-proto", "", "decode-error"), fmt.Sprintf("%d-byte block: %v", sb.want, err)}}
+			}
+			return reassemble(fmt.Sprintf("%d-byte block at part size %d", sb.want, types.BlockPartSizeBytes), sb.block.Hash(), sb.bz, sender)
+		}})
+		items = append(items, rtItem{group: grp, name: fmt.Sprintf("rawdb-at-production-part-size:%d", sb.want), run: func() (out []obs) {
+			if sb.block == nil {
+				return nil
+			}
+			name := fmt.Sprintf("%d-byte block at part size %d", sb.want, types.BlockPartSizeBytes)
+			db := memorydb.New()
+			parts := sb.block.MakePartSet(types.BlockPartSizeBytes)
+			id := types.BlockID{Hash: sb.block.Hash(), PartsHeader: parts.Header()}
+			seen := makeCommit(vals0, 2, 0, id, []string{"commit", "commit", "commit", "absent"})
+			rawdb.WriteBlock(db, sb.block, parts, seen)
+			for i := 0; i < int(parts.Total()); i++ {
+				var got *types.Part
+				if p, pv := safely(func() { got = rawdb.ReadBlockPart(db, 2, i) }); p {
+					out = append(out, obs{rtSig("rawdb-ReadBlockPart", partSizeClass(parts.GetPart(i)), "panic"), fmt.Sprintf("%s: ReadBlockPart(2, %d) of a %d-byte part written by WriteBlock: %s", name, i, len(parts.GetPart(i).Bytes), pv)})
+					continue
+				}
+				if d := diffPart(parts.GetPart(i), got); d != "" {
+					out = append(out, obs{rtSig("rawdb-ReadBlockPart", d, "field-changed"), fmt.Sprintf("%s: part %d: %s differs", name, i, d)})
+				}
+			}
+			var blk *types.Block
+			if p, pv := safely(func() { blk = rawdb.ReadBlock(db, 2) }); p {
+				return append(out, obs{rtSig("rawdb-ReadBlock", "block>=part-size", "panic"), fmt.Sprintf("%s: ReadBlock(2) after WriteBlock: %s", name, pv)})
+			}
+			if blk == nil {
+				return append(out, obs{rtSig("rawdb-ReadBlock", "", "missing"), name})
+			}
+			if d := diffBlock(sb.block, blk); d != "" {
+				out = append(out, obs{rtSig("rawdb-ReadBlock", d, "field-changed"), fmt.Sprintf("%s: %s differs", name, d)})
+			}
+			if e, err := encodeBlock(blk); err != nil || !bytes.Equal(e, sb.bz) {
+				out = append(out, obs{rtSig("rawdb-ReadBlock", "", "re-encoding-differs"), name})
+			}
+			if meta := rawdb.ReadBlockMeta(db, 2); meta == nil || diffBlockID(id, meta.BlockID) != "" {
+				out = append(out, obs{rtSig("rawdb-ReadBlockMeta", "block_id", "field-changed"), name})
+			}
+			return
+		}})
+	}
+	return items
+}
+
 // ---------------------------------------------------------------------------------------------
 
 type rtItem struct {
@@ -320,34 +500,8 @@ func blockItems(b *baseBlock) []rtItem {
 				out = append(out, obs{rtSig("block-parts", "", "sender-set-wrong"), fmt.Sprintf("%s: MakePartSet(%d) total %d complete %v", b.name, sz, n, sender.IsComplete())})
 				continue
 			}
-			for _, perm := range permutations(n) {
-				rcv := types.NewPartSetFromHeader(sender.Header())
-				for _, i := range perm {
-					w, err := wirePart(sender.GetPart(i))
-					if err != nil {
-						return append(out, obs{rtSig("part-proto", "", "decode-error"), fmt.Sprintf("%s: part %d of %d: %v", b.name, i, n, err)})
-					}
-					if ok, err := rcv.AddPart(w); !ok || err != nil {
-						return append(out, obs{rtSig("block-parts", "", "genuine-part-rejected"), fmt.Sprintf("%s: part %d of %d in order %v: (%v, %v)", b.name, i, n, perm, ok, err)})
-					}
-					if ok, _ := rcv.AddPart(w); ok {
-						return append(out, obs{rtSig("block-parts", "", "duplicate-accepted"), fmt.Sprintf("%s: part %d of %d added twice", b.name, i, n)})
-					}
-				}
-				if !rcv.IsComplete() {
-					return append(out, obs{rtSig("block-parts", "", "not-complete"), fmt.Sprintf("%s: all %d parts added in order %v but the set is not complete", b.name, n, perm)})
-				}
-				got, err := ioutil.ReadAll(rcv.GetReader())
-				if err != nil || !bytes.Equal(got, bz) {
-					return append(out, obs{rtSig("block-parts", "", "bytes-differ"), fmt.Sprintf("%s: reassembled %d bytes (err %v) differ from the %d original bytes, order %v", b.name, len(got), err, len(bz), perm)})
-				}
-				dec, err := decodeBlock(got)
-				if err != nil {
-					return append(out, obs{rtSig("block-parts", "", "decode-error"), fmt.Sprintf("%s: %v", b.name, err)})
-				}
-				if dec.Hash() != b.block.Hash() {
-					return append(out, obs{rtSig("block-parts", "hash", "field-changed"), b.name})
-				}
+			if o := reassemble(b.name, b.block.Hash(), bz, sender); len(o) > 0 {
+				return append(out, o...)
 			}
 		}
 		return
@@ -642,12 +796,14 @@ func simpleItems() []rtItem {
 						p := &types.Part{Index: ix, Bytes: bs, Proof: pr}
 						name := fmt.Sprintf("part:index=%d,bytes=%d,total=%d,proofindex=%d,aunts=%d", ix, bi, tot, pi, na)
 						items = append(items, rtItem{name: name, run: func() []obs {
-							if p.ValidateBasic() != nil || p.Proof.ValidateBasic() != nil {
+							// validity is the checker's own: a sender cuts parts of AT MOST the part size, and such a
+							// part must survive the wire whatever Part.ValidateBasic says
+							if len(p.Bytes) > types.BlockPartSizeBytes || p.Proof.ValidateBasic() != nil {
 								return nil
 							}
 							back, err := wirePart(p)
 							if err != nil {
-								return []obs{{rtSig("part-proto", "", "decode-error"), name + ": " + err.Error()}}
+								return []obs{{rtSig("part-proto", partSizeClass(p), "decode-error"), name + ": " + err.Error()}}
 							}
 							if d := diffPart(p, back); d != "" {
 								return []obs{{rtSig("part-proto", d, "field-changed"), name + ": " + d + " differs"}}
@@ -710,6 +866,7 @@ func allRTItems() []rtItem {
 			items = append(items, it)
 		}
 	}
+	items = append(items, sizedItems()...)
 	return append(items, simpleItems()...)
 }
 
@@ -776,6 +933,14 @@ func runRoundTrips() {
 		}
 	}
 	r.Require(r.DistinctCount("roundtrip_kinds") >= 8, "fewer than 8 kinds of round trip ran")
+	var sized []string
+	for _, sb := range buildSizedBlocks() {
+		r.Require(sb.block != nil && len(sb.bz) == sb.want, fmt.Sprintf("no valid block with a serialized length of exactly %d bytes could be built", sb.want))
+		if sb.block != nil {
+			sized = append(sized, fmt.Sprintf("%d bytes -> %d parts at part size %d", len(sb.bz), sb.block.MakePartSet(types.BlockPartSizeBytes).Total(), types.BlockPartSizeBytes))
+		}
+	}
+	r.Set("blocks_on_the_production_part_size_boundaries", sized)
 	r.Sample(map[string]interface{}{"roundtrip_items": len(items), "first": items[0].name, "last": items[len(items)-1].name})
 }
 
